@@ -324,275 +324,278 @@ class TrigTime:
             )
             if len(state_trig_ident) > 0:
                 await State.notify_add(state_trig_ident, notify_q)
-        if event_trigger is not None:
-            if isinstance(event_trigger, str):
-                event_trigger = [event_trigger]
-            if len(event_trigger) > 1:
-                event_trig_expr = AstEval(
-                    f"{ast_ctx.name} event_trigger",
-                    ast_ctx.get_global_ctx(),
-                    logger_name=ast_ctx.get_logger_name(),
-                )
-                Function.install_ast_funcs(event_trig_expr)
-                try:
-                    event_trig_expr.parse(event_trigger[1], mode="eval")
-                except:
-                    if len(state_trig_ident) > 0:
-                        State.notify_del(state_trig_ident, notify_q)
-                    raise
-            Event.notify_add(event_trigger[0], notify_q)
-        if mqtt_trigger is not None:
-            if isinstance(mqtt_trigger, str):
-                mqtt_trigger = [mqtt_trigger]
-            if len(mqtt_trigger) > 1:
-                mqtt_trig_expr = AstEval(
-                    f"{ast_ctx.name} mqtt_trigger",
-                    ast_ctx.get_global_ctx(),
-                    logger_name=ast_ctx.get_logger_name(),
-                )
-                Function.install_ast_funcs(mqtt_trig_expr)
-                try:
-                    mqtt_trig_expr.parse(mqtt_trigger[1], mode="eval")
-                except:
-                    if len(state_trig_ident) > 0:
-                        State.notify_del(state_trig_ident, notify_q)
-                    raise
-            await Mqtt.notify_add(mqtt_trigger[0], notify_q, encoding=mqtt_trigger_encoding)
-        if webhook_trigger is not None:
-            if isinstance(webhook_trigger, str):
-                webhook_trigger = [webhook_trigger]
-            if len(webhook_trigger) > 1:
-                webhook_trig_expr = AstEval(
-                    f"{ast_ctx.name} webhook_trigger",
-                    ast_ctx.get_global_ctx(),
-                    logger_name=ast_ctx.get_logger_name(),
-                )
-                Function.install_ast_funcs(webhook_trig_expr)
-                try:
-                    webhook_trig_expr.parse(webhook_trigger[1], mode="eval")
-                except:
-                    if len(state_trig_ident) > 0:
-                        State.notify_del(state_trig_ident, notify_q)
-                    raise
-            if webhook_methods is None:
-                webhook_methods = {"POST", "PUT"}
-            Webhook.notify_add(webhook_trigger[0], webhook_local_only, webhook_methods, notify_q)
-
-        time0 = time.monotonic()
-
-        if __test_handshake__:
-            #
-            # used for testing to avoid race conditions
-            # we use this as a handshake that we are about to
-            # listen to the queue
-            #
-            State.set(__test_handshake__[0], __test_handshake__[1])
-
-        startup_time = None
-        while True:
-            ret = None
-            this_timeout = None
-            state_trig_timeout = False
-            time_next = None
-            now = dt_now()
-            if startup_time is None:
-                startup_time = now
-            if time_trigger is not None:
-                time_next, time_next_adj = await cls.timer_trigger_next(time_trigger, now, startup_time)
-                _LOGGER.debug(
-                    "trigger %s wait_until time_next = %s, now = %s",
-                    ast_ctx.name,
-                    time_next,
-                    now,
-                )
-                if time_next is not None:
-                    this_timeout = (time_next_adj - now).total_seconds()
-            if timeout is not None:
-                time_left = time0 + timeout - time.monotonic()
-                if time_left <= 0:
-                    ret = {"trigger_type": "timeout"}
-                    break
-                if this_timeout is None or this_timeout > time_left:
-                    ret = {"trigger_type": "timeout"}
-                    this_timeout = time_left
-                    time_next = now + dt.timedelta(seconds=this_timeout)
-            if state_trig_waiting:
-                time_left = last_state_trig_time + state_hold - time.monotonic()
-                if this_timeout is None or time_left < this_timeout:
-                    this_timeout = time_left
-                    state_trig_timeout = True
-                    time_next = now + dt.timedelta(seconds=this_timeout)
-            if this_timeout is None:
-                if (
-                    state_trigger is None
-                    and event_trigger is None
-                    and mqtt_trigger is None
-                    and webhook_trigger is None
-                ):
-                    _LOGGER.debug(
-                        "trigger %s wait_until no next time - returning with none",
-                        ast_ctx.name,
+        try:
+            if event_trigger is not None:
+                if isinstance(event_trigger, str):
+                    event_trigger = [event_trigger]
+                if len(event_trigger) > 1:
+                    event_trig_expr = AstEval(
+                        f"{ast_ctx.name} event_trigger",
+                        ast_ctx.get_global_ctx(),
+                        logger_name=ast_ctx.get_logger_name(),
                     )
-                    ret = {"trigger_type": "none"}
-                    break
-                _LOGGER.debug("trigger %s wait_until no timeout", ast_ctx.name)
-                notify_type, notify_info = await notify_q.get()
-            else:
-                timeout_occured = False
-                while True:
+                    Function.install_ast_funcs(event_trig_expr)
                     try:
-                        this_timeout = max(0, this_timeout)
-                        _LOGGER.debug("trigger %s wait_until %.6g secs", ast_ctx.name, this_timeout)
-                        notify_type, notify_info = await asyncio.wait_for(
-                            notify_q.get(), timeout=this_timeout
-                        )
-                        state_trig_timeout = False
-                    except asyncio.TimeoutError:
-                        actual_now = dt_now()
-                        if actual_now < time_next:
-                            this_timeout = (time_next - actual_now).total_seconds()
-                            # tests/tests_function's simple now() requires us to ignore
-                            # timeouts that are up to 1us too early; otherwise wait for
-                            # longer until we are sure we are at or past time_next
-                            if this_timeout > 1e-6:
-                                continue
-                        if not state_trig_timeout:
-                            if not ret:
-                                ret = {"trigger_type": "time"}
-                                if time_next is not None:
-                                    ret["trigger_time"] = time_next
-                            timeout_occured = True
-                    break
-                if timeout_occured:
-                    break
-            if state_trig_timeout:
-                ret = state_trig_notify_info[1]
-                state_trig_waiting = False
-                break
-            if notify_type == "state":
-                if notify_info:
-                    new_vars, func_args = notify_info
-                else:
-                    new_vars, func_args = None, {}
+                        event_trig_expr.parse(event_trigger[1], mode="eval")
+                    except:
+                        if len(state_trig_ident) > 0:
+                            State.notify_del(state_trig_ident, notify_q)
+                        raise
+                Event.notify_add(event_trigger[0], notify_q)
+            if mqtt_trigger is not None:
+                if isinstance(mqtt_trigger, str):
+                    mqtt_trigger = [mqtt_trigger]
+                if len(mqtt_trigger) > 1:
+                    mqtt_trig_expr = AstEval(
+                        f"{ast_ctx.name} mqtt_trigger",
+                        ast_ctx.get_global_ctx(),
+                        logger_name=ast_ctx.get_logger_name(),
+                    )
+                    Function.install_ast_funcs(mqtt_trig_expr)
+                    try:
+                        mqtt_trig_expr.parse(mqtt_trigger[1], mode="eval")
+                    except:
+                        if len(state_trig_ident) > 0:
+                            State.notify_del(state_trig_ident, notify_q)
+                        raise
+                await Mqtt.notify_add(mqtt_trigger[0], notify_q, encoding=mqtt_trigger_encoding)
+            if webhook_trigger is not None:
+                if isinstance(webhook_trigger, str):
+                    webhook_trigger = [webhook_trigger]
+                if len(webhook_trigger) > 1:
+                    webhook_trig_expr = AstEval(
+                        f"{ast_ctx.name} webhook_trigger",
+                        ast_ctx.get_global_ctx(),
+                        logger_name=ast_ctx.get_logger_name(),
+                    )
+                    Function.install_ast_funcs(webhook_trig_expr)
+                    try:
+                        webhook_trig_expr.parse(webhook_trigger[1], mode="eval")
+                    except:
+                        if len(state_trig_ident) > 0:
+                            State.notify_del(state_trig_ident, notify_q)
+                        raise
+                if webhook_methods is None:
+                    webhook_methods = {"POST", "PUT"}
+                Webhook.notify_add(webhook_trigger[0], webhook_local_only, webhook_methods, notify_q)
 
-                state_trig_ok = True
+            time0 = time.monotonic()
 
-                if not ident_any_values_changed(func_args, state_trig_ident_any):
-                    # if var_name not in func_args we are state_check_now
-                    if "var_name" in func_args and not ident_values_changed(func_args, state_trig_ident):
-                        continue
+            if __test_handshake__:
+                #
+                # used for testing to avoid race conditions
+                # we use this as a handshake that we are about to
+                # listen to the queue
+                #
+                State.set(__test_handshake__[0], __test_handshake__[1])
 
-                    if state_trig_eval:
-                        state_trig_ok = None
-                        try:
-                            state_trig_ok = await state_trig_eval.eval(new_vars)
-                        except Exception as e:
-                            exc = e
-                        if exc is not None:
-                            break
-
-                        if state_hold_false is not None:
-                            if state_false_time is None:
-                                if state_trig_ok:
-                                    #
-                                    # wasn't False, so ignore
-                                    #
-                                    continue
-                                #
-                                # first False, so remember when it is
-                                #
-                                state_false_time = time.monotonic()
-                            elif state_trig_ok:
-                                too_soon = time.monotonic() - state_false_time < state_hold_false
-                                state_false_time = None
-                                if too_soon:
-                                    #
-                                    # was False but not for long enough, so start over
-                                    #
-                                    continue
-
-                if state_hold is not None:
-                    if state_trig_ok:
-                        if not state_trig_waiting:
-                            state_trig_waiting = True
-                            state_trig_notify_info = notify_info
-                            last_state_trig_time = time.monotonic()
-                            _LOGGER.debug(
-                                "trigger %s wait_until: got %s trigger; now waiting for state_hold of %g seconds",
-                                notify_type,
-                                ast_ctx.name,
-                                state_hold,
-                            )
-                        else:
-                            _LOGGER.debug(
-                                "trigger %s wait_until: got %s trigger; still waiting for state_hold of %g seconds",
-                                notify_type,
-                                ast_ctx.name,
-                                state_hold,
-                            )
-                        continue
-                    if state_trig_waiting:
-                        state_trig_waiting = False
+            startup_time = None
+            while True:
+                ret = None
+                this_timeout = None
+                state_trig_timeout = False
+                time_next = None
+                now = dt_now()
+                if startup_time is None:
+                    startup_time = now
+                if time_trigger is not None:
+                    time_next, time_next_adj = await cls.timer_trigger_next(time_trigger, now, startup_time)
+                    _LOGGER.debug(
+                        "trigger %s wait_until time_next = %s, now = %s",
+                        ast_ctx.name,
+                        time_next,
+                        now,
+                    )
+                    if time_next is not None:
+                        this_timeout = (time_next_adj - now).total_seconds()
+                if timeout is not None:
+                    time_left = time0 + timeout - time.monotonic()
+                    if time_left <= 0:
+                        ret = {"trigger_type": "timeout"}
+                        break
+                    if this_timeout is None or this_timeout > time_left:
+                        ret = {"trigger_type": "timeout"}
+                        this_timeout = time_left
+                        time_next = now + dt.timedelta(seconds=this_timeout)
+                if state_trig_waiting:
+                    time_left = last_state_trig_time + state_hold - time.monotonic()
+                    if this_timeout is None or time_left < this_timeout:
+                        this_timeout = time_left
+                        state_trig_timeout = True
+                        time_next = now + dt.timedelta(seconds=this_timeout)
+                if this_timeout is None:
+                    if (
+                        state_trigger is None
+                        and event_trigger is None
+                        and mqtt_trigger is None
+                        and webhook_trigger is None
+                    ):
                         _LOGGER.debug(
-                            "trigger %s wait_until: %s trigger now false during state_hold; waiting for new trigger",
-                            notify_type,
+                            "trigger %s wait_until no next time - returning with none",
                             ast_ctx.name,
                         )
-                        continue
-                if state_trig_ok:
-                    ret = notify_info[1] if notify_info else None
+                        ret = {"trigger_type": "none"}
+                        break
+                    _LOGGER.debug("trigger %s wait_until no timeout", ast_ctx.name)
+                    notify_type, notify_info = await notify_q.get()
+                else:
+                    timeout_occured = False
+                    while True:
+                        try:
+                            this_timeout = max(0, this_timeout)
+                            _LOGGER.debug("trigger %s wait_until %.6g secs", ast_ctx.name, this_timeout)
+                            notify_type, notify_info = await asyncio.wait_for(
+                                notify_q.get(), timeout=this_timeout
+                            )
+                            state_trig_timeout = False
+                        except asyncio.TimeoutError:
+                            actual_now = dt_now()
+                            if actual_now < time_next:
+                                this_timeout = (time_next - actual_now).total_seconds()
+                                # tests/tests_function's simple now() requires us to ignore
+                                # timeouts that are up to 1us too early; otherwise wait for
+                                # longer until we are sure we are at or past time_next
+                                if this_timeout > 1e-6:
+                                    continue
+                            if not state_trig_timeout:
+                                if not ret:
+                                    ret = {"trigger_type": "time"}
+                                    if time_next is not None:
+                                        ret["trigger_time"] = time_next
+                                timeout_occured = True
+                        break
+                    if timeout_occured:
+                        break
+                if state_trig_timeout:
+                    ret = state_trig_notify_info[1]
+                    state_trig_waiting = False
                     break
-            elif notify_type == "event":
-                if event_trig_expr is None:
-                    ret = notify_info
-                    break
-                try:
-                    event_trig_ok = await event_trig_expr.eval(notify_info)
-                except Exception as e:
-                    exc = e
-                    break
-                if event_trig_ok:
-                    ret = notify_info
-                    break
-            elif notify_type == "mqtt":
-                if mqtt_trig_expr is None:
-                    ret = notify_info
-                    break
-                try:
-                    mqtt_trig_ok = await mqtt_trig_expr.eval(notify_info)
-                except Exception as e:
-                    exc = e
-                    break
-                if mqtt_trig_ok:
-                    ret = notify_info
-                    break
-            elif notify_type == "webhook":
-                if webhook_trig_expr is None:
-                    ret = notify_info
-                    break
-                try:
-                    webhook_trig_ok = await webhook_trig_expr.eval(notify_info)
-                except Exception as e:
-                    exc = e
-                    break
-                if webhook_trig_ok:
-                    ret = notify_info
-                    break
-            else:
-                _LOGGER.error(
-                    "trigger %s wait_until got unexpected queue message %s",
-                    ast_ctx.name,
-                    notify_type,
-                )
+                if notify_type == "state":
+                    if notify_info:
+                        new_vars, func_args = notify_info
+                    else:
+                        new_vars, func_args = None, {}
 
-        if len(state_trig_ident) > 0:
-            State.notify_del(state_trig_ident, notify_q)
-        if event_trigger is not None:
-            Event.notify_del(event_trigger[0], notify_q)
-        if mqtt_trigger is not None:
-            Mqtt.notify_del(mqtt_trigger[0], notify_q)
-        if webhook_trigger is not None:
-            Webhook.notify_del(webhook_trigger[0], notify_q)
+                    state_trig_ok = True
+
+                    if not ident_any_values_changed(func_args, state_trig_ident_any):
+                        # if var_name not in func_args we are state_check_now
+                        if "var_name" in func_args and not ident_values_changed(func_args, state_trig_ident):
+                            continue
+
+                        if state_trig_eval:
+                            state_trig_ok = None
+                            try:
+                                state_trig_ok = await state_trig_eval.eval(new_vars)
+                            except Exception as e:
+                                exc = e
+                            if exc is not None:
+                                break
+
+                            if state_hold_false is not None:
+                                if state_false_time is None:
+                                    if state_trig_ok:
+                                        #
+                                        # wasn't False, so ignore
+                                        #
+                                        continue
+                                    #
+                                    # first False, so remember when it is
+                                    #
+                                    state_false_time = time.monotonic()
+                                elif state_trig_ok:
+                                    too_soon = time.monotonic() - state_false_time < state_hold_false
+                                    state_false_time = None
+                                    if too_soon:
+                                        #
+                                        # was False but not for long enough, so start over
+                                        #
+                                        continue
+
+                    if state_hold is not None:
+                        if state_trig_ok:
+                            if not state_trig_waiting:
+                                state_trig_waiting = True
+                                state_trig_notify_info = notify_info
+                                last_state_trig_time = time.monotonic()
+                                _LOGGER.debug(
+                                    "trigger %s wait_until: got %s trigger; now waiting for state_hold of %g seconds",
+                                    notify_type,
+                                    ast_ctx.name,
+                                    state_hold,
+                                )
+                            else:
+                                _LOGGER.debug(
+                                    "trigger %s wait_until: got %s trigger; still waiting for state_hold of %g seconds",
+                                    notify_type,
+                                    ast_ctx.name,
+                                    state_hold,
+                                )
+                            continue
+                        if state_trig_waiting:
+                            state_trig_waiting = False
+                            _LOGGER.debug(
+                                "trigger %s wait_until: %s trigger now false during state_hold; waiting for new trigger",
+                                notify_type,
+                                ast_ctx.name,
+                            )
+                            continue
+                    if state_trig_ok:
+                        ret = notify_info[1] if notify_info else None
+                        break
+                elif notify_type == "event":
+                    if event_trig_expr is None:
+                        ret = notify_info
+                        break
+                    try:
+                        event_trig_ok = await event_trig_expr.eval(notify_info)
+                    except Exception as e:
+                        exc = e
+                        break
+                    if event_trig_ok:
+                        ret = notify_info
+                        break
+                elif notify_type == "mqtt":
+                    if mqtt_trig_expr is None:
+                        ret = notify_info
+                        break
+                    try:
+                        mqtt_trig_ok = await mqtt_trig_expr.eval(notify_info)
+                    except Exception as e:
+                        exc = e
+                        break
+                    if mqtt_trig_ok:
+                        ret = notify_info
+                        break
+                elif notify_type == "webhook":
+                    if webhook_trig_expr is None:
+                        ret = notify_info
+                        break
+                    try:
+                        webhook_trig_ok = await webhook_trig_expr.eval(notify_info)
+                    except Exception as e:
+                        exc = e
+                        break
+                    if webhook_trig_ok:
+                        ret = notify_info
+                        break
+                else:
+                    _LOGGER.error(
+                        "trigger %s wait_until got unexpected queue message %s",
+                        ast_ctx.name,
+                        notify_type,
+                    )
+
+        finally:
+            # also when the task is cancelled or a filter expression does not parse
+            if len(state_trig_ident) > 0:
+                State.notify_del(state_trig_ident, notify_q)
+            if event_trigger is not None:
+                Event.notify_del(event_trigger[0], notify_q)
+            if mqtt_trigger is not None:
+                Mqtt.notify_del(mqtt_trigger[0], notify_q)
+            if webhook_trigger is not None:
+                Webhook.notify_del(webhook_trigger[0], notify_q)
         if exc:
             raise exc
         return ret
